@@ -43,7 +43,7 @@ func serOne(buf gopacket.SerializeBuffer, o gopacket.SerializeOptions, l gopacke
 		ns.SetNetworkLayerForChecksum(nl)
 	}
 	pi = vlib.Guard(func() {
-		err = gopacket.SerializeLayers(buf, o, l, gopacket.Payload(payload))
+		err = gopacket.SerializeLayers(buf, o, l, innermost(payload))
 		if err == nil {
 			out = append([]byte{}, buf.Bytes()...)
 		}
@@ -213,6 +213,24 @@ func c06Roundtrip(c *vlib.Ctx) {
 				}
 			}
 			c.Count("byte_sweep_layers_checked", n)
+			c.End()
+		}
+		// one element grown past 255 and past 65 535 bytes with every covering length field adjusted (24 and 32 bit length
+		// fields included): layers that hold more than the low 8 or 16 bits of a length can say
+		for si := 0; si < min(len(cp.Seeds[t]), c.Pick(4, 40)); si++ {
+			idx++
+			if !c.Begin(idx) {
+				continue
+			}
+			n := 0
+			for _, b := range cp.BigStretch(cp.Seeds[t][si]) {
+				for _, it := range c06Harvest(b, t, true) {
+					c06Check(c, it, "big-stretch")
+					n++
+				}
+				c.Step()
+			}
+			c.Count("big_stretch_layers_checked", n)
 			c.End()
 		}
 	}
@@ -947,7 +965,7 @@ func c07FieldsCheck(c *vlib.Ctx, r *vlib.Rand, it c06Item, how string) {
 		var out []byte
 		var err error
 		pi := vlib.Guard(func() {
-			err = gopacket.SerializeLayers(buf, o, l, gopacket.Payload(payload))
+			err = gopacket.SerializeLayers(buf, o, l, innermost(payload))
 			if err == nil {
 				out = append([]byte{}, buf.Bytes()...)
 			}
@@ -972,7 +990,7 @@ func c07FieldsCheck(c *vlib.Ctx, r *vlib.Rand, it c06Item, how string) {
 			var out []byte
 			var err error
 			pi := vlib.Guard(func() {
-				err = gopacket.SerializeLayers(buf, o, l, gopacket.Payload(payload))
+				err = gopacket.SerializeLayers(buf, o, l, innermost(payload))
 				if err == nil {
 					out = append([]byte{}, buf.Bytes()...)
 				}
@@ -1096,7 +1114,7 @@ func c07Write(c *vlib.Ctx, prefix, tk, what string, mk func() gopacket.Serializa
 		var err error
 		pi := vlib.Guard(func() {
 			l := mk()
-			err = gopacket.SerializeLayers(buf, o, l, gopacket.Payload(payload))
+			err = gopacket.SerializeLayers(buf, o, l, innermost(payload))
 			if err == nil {
 				out = append([]byte{}, buf.Bytes()...)
 			}
@@ -1127,4 +1145,14 @@ func c07Write(c *vlib.Ctx, prefix, tk, what string, mk func() gopacket.Serializa
 	if c.WantSample() {
 		c.Sample(map[string]any{"type": what, "fields_changed": *changed, "result": map[bool]string{true: "bytes", false: "error"}[rs[0].err == nil]})
 	}
+}
+
+// innermost wraps the payload bytes in one of the two byte-slice layers the library offers (Payload, Fragment); which
+// one is decided by the bytes, so every buffer kind of one comparison sees the same.
+func innermost(payload []byte) gopacket.SerializableLayer {
+	if len(payload)%2 == 1 {
+		f := gopacket.Fragment(payload)
+		return &f
+	}
+	return gopacket.Payload(payload)
 }
